@@ -4,13 +4,18 @@ package main
 
 import (
 	"bufio"
+	"context"
+	"encoding/base64"
 	"fmt"
 	"net/http"
 	"net/http/httptest"
 	"strconv"
 	"strings"
+	"sync"
+	"time"
 
 	"golang.org/x/crypto/bcrypt"
+	"nhooyr.io/websocket"
 
 	"github.com/postalsys/muti-metroo/internal/agent"
 	"github.com/postalsys/muti-metroo/internal/config"
@@ -90,8 +95,97 @@ func c21Run(line string) string {
 			return "401"
 		}
 		return "pass"
+	case len(f) == 7 && f[0] == "ws":
+		return c21WS(f)
 	}
 	return "bad-op"
+}
+
+// c21WS: ws <enabled> <users> <basic> <dial> <udp><icmp> <input> — the agent's authenticators in a real
+// socks5.Server, its real WebSocket listener (plaintext, loopback), and a real WebSocket client that
+// offers the "socks5" subprotocol, sends the input as binary frames and collects the server's frames.
+func c21WS(f []string) string {
+	cfg := c21Config(f[1], f[2])
+	w := &c23World{dial: f[4], udp: f[5][0], icmp: f[5][1]}
+	srv := socks5.NewServer(socks5.ServerConfig{Address: "127.0.0.1:0", Authenticators: agent.VerifC21BuildAuth(cfg), Dialer: w})
+	h := srv.VerifC21Handler()
+	if w.udp != 'x' {
+		h.SetUDPHandler(c23UDP{w})
+	}
+	if w.icmp != 'x' {
+		h.SetICMPHandler(c23ICMP{w})
+	}
+	wsCfg := socks5.WebSocketConfig{Address: "127.0.0.1:0", PlainText: true}
+	if cfg.SOCKS5.Auth.Enabled { // agent.Start
+		wsCfg.Credentials = agent.VerifC21CredStore(cfg)
+	}
+	must(srv.StartWebSocket(wsCfg))
+	defer srv.StopWebSocket()
+	ctx, cancel := context.WithTimeout(context.Background(), 8*time.Second)
+	defer cancel()
+	hdr := http.Header{}
+	if f[3] != "-" {
+		p := strings.Split(f[3], ".")
+		hdr.Set("Authorization", "Basic "+base64.StdEncoding.EncodeToString(append(append(unhexTok(p[0]), ':'), unhexTok(p[1])...)))
+	}
+	conn, resp, err := websocket.Dial(ctx, "ws://"+srv.WebSocketAddress()+"/socks5", &websocket.DialOptions{Subprotocols: []string{"socks5"}, HTTPHeader: hdr})
+	if err != nil {
+		if resp != nil && resp.StatusCode == http.StatusUnauthorized {
+			return "401"
+		}
+		return "err ws-dial"
+	}
+	conn.SetReadLimit(1 << 20)
+	var mu sync.Mutex
+	var msgs [][]byte
+	go func() {
+		for {
+			_, data, err := conn.Read(ctx)
+			if err != nil {
+				return
+			}
+			mu.Lock()
+			msgs = append(msgs, data)
+			mu.Unlock()
+		}
+	}()
+	input := unhexTok(f[6])
+	// several frames: the SOCKS5 stream is not aligned with WebSocket messages
+	for len(input) > 0 {
+		n := len(input)
+		if n > 3 && len(input)%2 == 1 {
+			n = 3
+		}
+		if err := conn.Write(ctx, websocket.MessageBinary, input[:n]); err != nil {
+			break
+		}
+		input = input[n:]
+	}
+	if !c23AtRest(5*time.Second, "internal/socks5.", "nhooyr.io/websocket") {
+		conn.CloseNow()
+		return "timeout ws-quiesce"
+	}
+	conn.CloseNow()
+	for dl := time.Now().Add(3 * time.Second); time.Now().Before(dl) && srv.WebSocketConnectionCount() > 0; {
+		time.Sleep(200 * time.Microsecond)
+	}
+	mu.Lock()
+	defer mu.Unlock()
+	w.mu.Lock()
+	defer w.mu.Unlock()
+	parts := make([]string, len(msgs))
+	for i, m := range msgs {
+		parts[i] = hexTok(m)
+	}
+	r := "-"
+	if len(parts) > 0 {
+		r = strings.Join(parts, ",")
+	}
+	a := "none"
+	if len(w.actions) > 0 {
+		a = strings.Join(w.actions, "+")
+	}
+	return "r " + r + " a " + a
 }
 
 func c21Gen(w *bufio.Writer, seed int64, tier string) {
@@ -125,6 +219,16 @@ func c21Gen(w *bufio.Writer, seed int64, tier string) {
 		ulist{user(long255, "", "g"+hx(pw72)), [][2]string{{long255, pw72}}},
 		ulist{user("alice", "", "g"+hx("pass")) + "/" + user("alice", "", "g"+hx("other")), [][2]string{{"alice", "other"}}}, // duplicate hashed name: last wins
 	)
+	// bcrypt's 72-byte key: passwords of 71 / 72 bytes, and presented passwords of 71/72/73/200 bytes
+	// sharing the prefix, plus the NUL forms
+	p71 := strings.Repeat("k", 70) + "Q"
+	p72 := p71 + "R"
+	userLists = append(userLists,
+		ulist{user("alice", "", "g"+hx(p71)), [][2]string{{"alice", p71}}},
+		ulist{user("alice", "", "g"+hx(p72)), [][2]string{{"alice", p72}}},
+		ulist{user("alice", "", "g"+hx("ab")), [][2]string{{"alice", "ab"}}},
+	)
+	longPws := []string{p71, p72, p72 + "S", p72 + strings.Repeat("z", 128), p71 + "X", p71[:70], p71 + "\x00", p71 + "\x00tail", "ab\x00ab", "ab\x00", "ab\x00ab\x00ab", "abab"}
 	names := []string{"alice", "bob", "ghost", "carol", "", "Alice", "alic"}
 	pws := []string{"pass", "builder", "", "other", "plain", "pas", "passs", "not-a-bcrypt-hash"}
 	dials := []string{"ok.7f000001.8080", "f.other", "f.dns", "ok.-.0"}
@@ -191,6 +295,48 @@ func c21Gen(w *bufio.Writer, seed int64, tier string) {
 			}
 			emit("1", ul, "ok.7f000001.8080", "xx", append(append([]byte{5, 1, 2}, up("alice", "pass")...), reqs[0]...))
 			emit("1", ul, "ok.7f000001.8080", "kf", append(append([]byte{5, 2, 0, 2}, up("bob", "builder")...), reqs[1]...))
+			// bcrypt key-length classes against this list, on all three paths
+			if strings.Contains(ul, hx(p71)) || strings.Contains(ul, hx("ab")) {
+				for _, lp := range longPws {
+					emit("1", ul, "ok.7f000001.8080", "xx", append(append([]byte{5, 1, 2}, up("alice", lp)...), reqs[0]...))
+					fmt.Fprintf(w, "w 1 %s %s.%s\n", ul, hx("alice"), hx(lp))
+					if r.chance(50) {
+						fmt.Fprintf(w, "ws 1 %s %s.%s ok.7f000001.8080 xx %s\n", ul, hx("alice"), hx(lp), hexTok(append(append([]byte{5, 1, 2}, up("alice", lp)...), reqs[0]...)))
+					}
+				}
+			}
+			// the real WebSocket listener and a real client: gate x SOCKS5 credentials
+			for k := 0; k < 3; k++ {
+				basic := "-"
+				if len(ule.valid) > 0 && r.chance(70) {
+					c := ule.valid[r.intn(len(ule.valid))]
+					basic = hx(c[0]) + "." + hx(c[1])
+				} else if r.chance(70) {
+					basic = hx(names[r.intn(len(names))]) + "." + hx(pws[r.intn(len(pws))])
+				}
+				if strings.HasPrefix(basic, "-.") { // an empty user name cannot be written in the op's field syntax
+					basic = "-"
+				}
+				en := "1"
+				if r.chance(10) {
+					en = "0"
+				}
+				var msg []byte
+				g := greetings[r.intn(len(greetings))]
+				switch {
+				case len(ule.valid) > 0 && r.chance(50):
+					c := ule.valid[r.intn(len(ule.valid))]
+					msg = append(append(append([]byte{}, g...), up(c[0], c[1])...), reqs[r.intn(len(reqs))]...)
+				case r.chance(50):
+					msg = append(append([]byte{}, g...), reqs[0]...)
+				default:
+					msg = append(append(append([]byte{}, g...), up(names[r.intn(len(names))], pws[r.intn(len(pws))])...), reqs[0]...)
+				}
+				if r.chance(10) {
+					msg = msg[:r.intn(len(msg)+1)]
+				}
+				fmt.Fprintf(w, "ws %s %s %s %s xx %s\n", en, ul, basic, dials[r.intn(len(dials))], hexTok(msg))
+			}
 			// WebSocket gate
 			for k := 0; k < 4; k++ {
 				en := "1"
